@@ -117,6 +117,29 @@ theorem no_roll_exact (n : Nat) (hn : 0 < n) (progs : List (List Op)) (sched : L
   rw [h5]
   omega
 
+/-- every pending-Inc marker is 0 or 1 -/
+theorem preInc_nonneg (p : Pc) : 0 ≤ preInc p := by
+  have hk : ∀ k : Cont, 0 ≤ kInc k := by intro k; cases k <;> simp [kInc]
+  cases p <;> simp [preInc] <;> exact hk _
+
+/-- NEVER MORE THAN HAPPENED, at every instant of every schedule (not only at quiescence): the buckets together never
+    hold more than the number of Inc calls begun so far, i.e. 0 ≤ Σ buckets ≤ TotalSum — a reader that sums the
+    ring in the middle of any race cannot see an event that was not reported -/
+theorem window_le_total_always (n : Nat) (hn : 0 < n) (progs : List (List Op)) (sched : List Nat) :
+    let c := run sys (init n progs) sched
+    0 ≤ c.shared.buckets.sum ∧ c.shared.buckets.sum ≤ c.shared.total := by
+  intro c
+  have hI : Inv n c := Inv.run hn progs sched
+  have h0 : 0 ≤ (c.locals.map (fun l => preInc l.pc)).sum := by
+    apply sum_nonneg
+    intro b hb
+    rcases List.mem_map.mp hb with ⟨l, _, rfl⟩
+    exact preInc_nonneg _
+  have h1 := hI.slack
+  have h2 := hI.total
+  have h3 : 0 ≤ c.shared.buckets.sum := sum_nonneg _ hI.nonneg
+  exact ⟨h3, by omega⟩
+
 /-- non-vacuity: two threads racing the roll-over from bucket 0 to bucket 1 of a 2-bucket ring -/
 example : quiescent (run sys (init 2 [[.inc (some 0), .inc (some 1)], [.inc (some 1)]])
     [0,0,0,0, 1,1, 0,0, 1, 0,0,0,0,0,0,0, 1,1,1,1,1,1,1,1,1]) = true := by decide
